@@ -1186,6 +1186,23 @@ int EGLPNUM_TYPENAME_ILLlib_addrow (
 	qslp = lp->O;
 	A = &qslp->A;
 
+	/* validate the arguments before anything is modified */
+	for (i = 0; i < cnt; i++)
+	{
+		if (ind[i] < 0 || ind[i] >= qslp->nstruct)
+		{
+			QSlog("EGLPNUM_TYPENAME_ILLlib_addrow called with bad column index: %d", ind[i]);
+			rval = 1;
+			ILL_CLEANUP;
+		}
+	}
+	if (sense != 'L' && sense != 'G' && sense != 'E' && sense != 'R')
+	{
+		QSlog("illegal sense %c in EGLPNUM_TYPENAME_ILLlib_addrow", sense);
+		rval = 1;
+		ILL_CLEANUP;
+	}
+
 	if (qslp->rA)
 	{															/* After an addrow call, needs to be updated */
 		EGLPNUM_TYPENAME_ILLlp_rows_clear (qslp->rA);
